@@ -348,13 +348,17 @@ def phase_amb(pid, tier, rng, ev, rep, tmp, extra_specs=()):
     sps = [dict(sp, amb=True, pp=False, elexer=rng.choice(['basic', 'dynamic'])) for sp in specs(C.scale(700 if tier == 'quick' else 7000), rng)]
     for d in extra_specs:
         sps.append({'G': d['G'], 'ka': False, 'ph': True, 'pp': False, 'amb': True, 'inputs': d['inputs'], 'elexer': 'basic'})
-    cases = [c for c in C.pmap(observe_case, sps) if not c['skip'] and c['reds']]
-    ev.count('builder_amb_grammars', len(cases))
-    ev.count('builder_amb_reductions', sum(len(c['reds']) for c in cases))
-    ev.count('builder_amb_reductions_returning__ambig', sum(1 for c in cases for e in c['reds'] if e['res'][1] == '_ambig'))
-    ev.count('builder_amb_reductions_with_an_ambiguous_intermediate_node', sum(1 for c in cases for e in c['reds'] if e['kids'] and e['kids'][0][1] == '_iambig'))
-    ev.cov['traces_validated_against_impl'] = ev.cov.get('traces_validated_against_impl', 0) + sum(len(c['reds']) for c in cases)
-    drift = judge(pid, cases, ev, rep, tmp, 'builder-amb')
+    # in slices: the recorded reductions of a few thousand ambiguous parses do not fit through one pool.map (MemoryError, thorough)
+    drift = []
+    for off in range(0, len(sps), 700):
+        cases = [c for c in C.pmap(observe_case, sps[off:off + 700], chunksize=6) if not c['skip'] and c['reds']]
+        ev.count('builder_amb_grammars', len(cases))
+        ev.count('builder_amb_reductions', sum(len(c['reds']) for c in cases))
+        ev.count('builder_amb_reductions_returning__ambig', sum(1 for c in cases for e in c['reds'] if e['res'][1] == '_ambig'))
+        ev.count('builder_amb_reductions_with_an_ambiguous_intermediate_node', sum(1 for c in cases for e in c['reds'] if e['kids'] and e['kids'][0][1] == '_iambig'))
+        ev.cov['traces_validated_against_impl'] = ev.cov.get('traces_validated_against_impl', 0) + sum(len(c['reds']) for c in cases)
+        drift += judge(pid, cases, ev, rep, tmp, 'builder-amb%d' % off) or []
+        del cases
     if drift:
         from . import c03
         seen, out = set(), []
